@@ -68,13 +68,13 @@ CHECKS = {
         technique="bounded native contract check (stand-in)"),
     "C17": dict(
         category="exploration",
-        text="Statistics are recounted from result['code'] (lines, bytes with two-byte line ends, distinct allocated registers) for generated programs including libraries whose state lives only in module-level registers.",
-        design_ref="6.C17", note="Bounded; the proof of the statistics block is listed in DESIGN as planned.",
-        technique="bounded native contract check (stand-in)"),
+        text="The statistics block of get_code (cut out of the real method on every run, the version-note statement abstracted to 'writes any text') is proved to compute num_lines / num_bytes / num_registers from the returned text by the property's formulas; that the used-register set is complete, and the formulas' agreement with an independent recount (lines, bytes with two-byte line ends, distinct r<N> tokens), are bounded: generated programs incl. state-only libraries, version-note vectors, and corner programs x all 256 option vectors.",
+        design_ref="6.C17, 12.8", note="Level stays 'exploration' because completeness of used_registers (register_assignment) is bounded only; the proved obligations are listed separately in the evidence.",
+        technique=TECH + " (block contract); bounded native contract check of compile_code as stand-in"),
     "C10": dict(
         category="proof",
-        text="Compiler.compile is proved, by exception-flow VCs over its real source, to let no Exception escape and to return a result (pipeline calls modelled as opaque operations that may raise anything); compile_code as a whole is checked on a corpus of arbitrary texts for verdict shape, error positions, time and leftover helper processes (bounded part, not counted as proved).",
-        design_ref="6.C10", note="Assumptions listed in evidence (CompilerError.node invariant, SyntaxError attributes, BaseException outside the model, pass loop unrolled for two symbolic passes). The pre-try directive scanner and eval_constexpr are covered by the bounded corpus only.",
+        text="Compiler.compile is proved, by exception-flow VCs over its real source, to let no Exception escape and to return a result (pipeline calls modelled as opaque operations that may raise anything); compile_code itself is proved for every source text (str) and every options object / None: both loops of the directive scan are cut by invariants, no exception escapes, the caller's options object is not written and the value returned is the compiler's; verdict shape, error positions, time and leftover helper processes are checked on a corpus of arbitrary texts and editing histories (bounded part, not counted as proved).",
+        design_ref="6.C10, 12.8", note="Assumptions listed in evidence (CompilerError.node invariant, SyntaxError attributes, BaseException outside the model, pass loop unrolled for two symbolic passes). eval_constexpr, sources given as a dict and options given as a dict are covered by the bounded corpus only.",
         technique=TECH + "; bounded corpus for the parts outside reach"),
     "C11": dict(
         category="other",
@@ -88,22 +88,22 @@ CHECKS = {
         technique="bounded native contract check (stand-in) + syntactic scan obligation"),
     "C14": dict(
         category="proof",
-        text="mod_daemon.process_input is proved over its real source (try/except/except/finally with returns inside try, request content modelled as arbitrary values whose every operation may raise): no exception escapes and exactly one reply line reaches the saved stdout per non-empty request; stdout-discipline scans; the real daemon process is run on request histories (bounded, not counted as proved).",
-        design_ref="6.C14", note="Assumed: compile_code returns a JSON-serialisable dict or raises (C10), json/base64/print contracts listed in evidence. main()'s loop is covered by the bounded process runs.",
+        text="mod_daemon.process_input is proved over its real source (try/except/except/finally with returns inside try, request content modelled as arbitrary values whose every operation may raise): no exception escapes and exactly one reply line reaches the saved stdout per non-empty request; main()'s request loop is proved with a while-loop invariant and a variant over a ghost input of any length (process_input runs exactly once, in order, for every line before the first EXIT line or end of input, with the stripped text; the loop terminates); stdout-discipline scans; the real daemon process is run on request histories (bounded, not counted as proved).",
+        design_ref="6.C14, 12.8", note="Assumed: compile_code returns a JSON-serialisable dict or raises (C10), json/base64/print/readline contracts listed in evidence. The __main__ wrapper (signal handlers, asyncio.run) is covered by the bounded process runs only.",
         technique=TECH + "; bounded runs of the real process"),
     "C15": dict(
         category="proof",
-        text="The body of the directive loop (one tag) is proved equal to the property's normalisation for every tag string and every caller vector, including the frame (other options untouched); line filtering / splitting / last-one-wins and equality with the API call are bounded stand-ins with options observed by rebinding compiler.Compiler.",
-        design_ref="6.C15", note="str.strip / str.replace are uninterpreted functions shared by code and specification.",
+        text="The body of the directive loop (one tag) is proved equal to the property's normalisation for every tag string and every caller vector, including the frame (other options untouched); compile_code as a whole is proved to let no exception escape, to keep `options` an options object with boolean fields through both scan loops and to leave the caller's object unwritten; line filtering / splitting / last-one-wins and equality with the API call are bounded stand-ins with options observed by rebinding compiler.Compiler.",
+        design_ref="6.C15, 12.8", note="str.strip / str.replace are uninterpreted functions shared by code and specification.",
         technique=TECH + "; bounded native check for the parts outside reach"),
     "C04": dict(
         category="exploration",
-        text="assign_colors is executed symbolically on the real source for every list of n <= 5 (thorough: 7) symbols with arbitrary integer lifetimes (complete case analysis per n: overlapping lifetimes get different colours, colours dense from 0); lifetime soundness and the allocator as a whole are exercised by the bounded simulation check (a clobbered live value shows up as a wrong effect) and a >16-live-values rejection check.",
-        design_ref="6.C04", note="K-bounded symbolic execution is not a proof for all n; sorted() is an assumed contract; known findings (alias, nested-loop lifetime, transitive blocking) replayed every run.",
-        technique=TECH + " (K-bounded: complete per list length); bounded native contract check of compile_code as stand-in"),
+        text="assign_colors is PROVED on the real source for symbol lists of every length (two loop invariants of 10 + 9 clauses, ghost owner lists and slot fields, symbolic-length lists; overlapping lifetimes get different colours, every symbol is coloured) and, as an independent second encoding, executed symbolically for every list of n <= 5 (thorough: 7) symbols; the body of assign_registers' symbol loop is proved (colour c is the c-th register not blocked by a caller, within r0-r15, otherwise the out-of-registers error). That line-interval lifetimes cover real liveness, and the call-graph blocking around the loop, are exercised by the bounded simulation check only (a clobbered live value shows up as a wrong effect), hence level 'exploration'.",
+        design_ref="6.C04, 12.8, appendix A", note="sorted() is an assumed contract (ordering fact for the key the code passes); known findings (alias, nested-loop lifetime, transitive blocking, inlined return register) replayed every run.",
+        technique=TECH + " (unbounded loop-invariant proof + K-bounded second encoding); bounded native contract check of compile_code as stand-in"),
     "C09": dict(
         category="proof",
-        text="format_int (decision block), IC10Operand.__init__ and to_string{int} are proved against read-back specifications, the fold tables' kind clauses and an exhaustive scan of literal opcodes against the ISA table are discharged; float literals and whole outputs are checked by bounded stand-ins (read-back of printed doubles, grammar check of generated programs' outputs).",
+        text="format_int (decision block), IC10Operand.__init__ and to_string{int} are proved against read-back specifications, IC10Instruction.to_string is proved to print indentation, opcode, output and inputs in order separated by single blanks (0..4 inputs), the fold tables' kind clauses and an exhaustive scan of literal opcodes against the ISA table are discharged; float literals and whole outputs are checked by bounded stand-ins (read-back of printed doubles, grammar check of generated programs' outputs).",
         design_ref="6.C09", note="Assumed library contracts for format()/str(); the small-magnitude float branch and whole outputs are bounded only; known findings (neg opcode, None operand, complex literal, >64-bit hex) replayed every run.",
         technique=TECH + "; bounded native checks for the parts outside reach"),
 }
